@@ -354,7 +354,7 @@ fn flat_scalars(v: &Value, t: &Type, out: &mut Vec<u8>) {
 }
 
 pub fn run(ctx: &mut Ctx) {
-    let total = ctx.q(600, 12000);
+    let total = ctx.q(400, 12000);
     ctx.cases("exact", total, |ctx, idx| exact_case(ctx, idx));
 
     // sampled mode: histograms are emitted; the statistical decision is made by the Python monitor
